@@ -160,6 +160,22 @@ CHECKS = {
         note="Partial: the resolution of declared block_parameters (Unify/Item/Flatten/UnifyArgument/Self) against the receiver is end-to-end only, on homogeneous receivers.",
         technique="Lean 4 proof (induction over arbitrary write sequences on the map model) + end-to-end block probes",
     ),
+    "C16": dict(
+        category="proof",
+        text="Lookup core: GetMethodT / getParentMethodT (with the entered-set of the cyclic-inheritance fix) are modelled over Go-map models of TFrame and ClassInheritanceMap. Lean proves for EVERY table, EVERY graph (cycles included) and any fuel: a resolved definition exists in the table and carries the asked method name and privacy flag — so an explicit-receiver call never resolves to a private method; "
+             "the class's own definition wins; a direct superclass's / included module's definition is found; resolution fails when no key of that name exists. End-to-end: generated hierarchies (chains of depth 1-4, include/extend, class << self, initialize, visibility sections) with calls whose outcome is computed by a reference model of Ruby's rules; the set of reported rows must match exactly.",
+        design="DESIGN.md §4 C16",
+        note="Partial: how the class/module/include/def evaluators populate the maps and the strategies' visibility checks are end-to-end only. Names are fresh (collisions with configured class names are C20's known limitation).",
+        technique="Lean 4 proof (mutual structural recursion, induction on fuel and parent lists) + end-to-end comparison with a Ruby reference model",
+    ),
+    "C27": dict(
+        category="proof",
+        text="Key algebra: on the models of SeparateNameSpaces / CalculateFrame Lean proves that M::C splits into namespace M and class C, A::B::C into frame A::B, that differently wrapped groups get different frames and therefore pairwise different map keys, and that writes under a decoy's frame are invisible to every lookup under the group's frame. "
+             "End-to-end: a generated class group at top level, wrapped in one and two modules (outside references qualified), and next to a same-named decoy class with different methods and parent; outputs identical up to the module prefix and row shift. A lexical-superclass defect found this way was repaired by a fix: commit.",
+        design="DESIGN.md §4 C27",
+        note="Partial: eval/class.go, module.go, namespace.go are end-to-end only.",
+        technique="Lean 4 proof (string/key lemmas, frame lemma on the map model) + end-to-end wrap/decoy comparison",
+    ),
 }
 
 PENDING_REASON = "check not built yet in this session (see DESIGN.md §4 for the planned Lean model and theorem); not claimed until its check exists"
